@@ -101,6 +101,9 @@ def worker(job):
             # follow mode and depth bounds: neither may change how a starting point is spelled or whether it is diagnosed
             mode = rng.choice(["P", "P", "P", "H", "L", "follow"])
             lead = {"P": rng.choice([[], ["-P"]]), "H": ["-H"], "L": ["-L"], "follow": []}[mode]
+            if rng.random() < 0.25:
+                lead = lead + ["--"]            # the option terminator changes nothing about the starting points (nor their default)
+                st.inc("runs_with_option_terminator")
             mind = rng.choice([0, 0, 0, 1, 2])
             maxd = rng.choice([None, None, None, 0, 1, 2])
             if maxd is not None and mind > maxd:
@@ -116,6 +119,8 @@ def worker(job):
             for r in roots:
                 st.add("spellings", r.replace(sb, "ABS"))
             if shape == "none":
+                if "--" in lead:
+                    st.inc("option_terminator_and_no_starting_point")
                 roots_eff = ["."]
                 args = [common.FIND] + lead + tail
                 stdin = None
@@ -205,10 +210,11 @@ def run(ctx):
                 "per-starting-point segments as multisets; distinct = (shape, names, sorted)")
     ctx.assumptions = ["lib/refwalk.py per starting point, children joined textually with one '/' unless the starting point ends in '/'",
                        "exit status after an empty -files0-from name not judged (statement: diagnosed and skipped)", "valid UTF-8 names",
-                       "follow modes -P/-H/-L/-follow and -mindepth/-maxdepth are varied; runs whose reference walk meets a link loop are not judged"]
+                       "follow modes -P/-H/-L/-follow, the option terminator '--' and -mindepth/-maxdepth are varied; runs whose reference walk meets a link loop are not judged"]
     nw = common.NCPU
     n = ctx.scale(1600, 80000)
     ctx.pmap(worker, [(k, n // nw, ctx.seed) for k in range(nw)])
     for key in ("shape:none", "shape:operands", "shape:files0-file", "shape:files0-stdin", "shape:equiv", "files0_no_final_nul", "files0_final_nul",
-                "files0_with_empty_names", "files0_with_dash_or_newline_names", "runs_with_missing_starting_point", "equivalence_pairs"):
+                "files0_with_empty_names", "files0_with_dash_or_newline_names", "runs_with_missing_starting_point", "equivalence_pairs",
+                "option_terminator_and_no_starting_point"):
         ctx.require(key, 5)
